@@ -347,6 +347,8 @@ def gen_dead(rng, kind, pattern, ctx=None):
     X = add(kind, None, rand_reward(rng))
     targets = []
     live_vals = [F(k, 12) for k in rng.sample(range(1, 12), min(L, 11))] + [F(1, 2)] * 5
+    if kind == P1 and rng.random() < 0.6:
+        live_vals = [live_vals[0]] * (L + 5)         # tied live targets: several reachability-optimal actions survive
     for i, live in enumerate(pattern):
         if live:
             sort = rng.choice(["final", "prob", "prob", "p1", "p2", "probcycle"])
